@@ -8,6 +8,7 @@ import (
 	"context"
 	"encoding/csv"
 	"errors"
+	"fmt"
 	"io"
 	"os"
 	"sort"
@@ -130,6 +131,11 @@ func (s *Sorter) Reset() {
 }
 
 func (s *Sorter) AddRow(row []string) error {
+	for i, str := range row {
+		if len(str) > objects.MaxStrLen {
+			return fmt.Errorf("cell value at column %d is too long (%d > %d bytes)", i, len(str), objects.MaxStrLen)
+		}
+	}
 	s.size += 4
 	for _, str := range row {
 		s.size += uint64(len(str)) + 2
@@ -197,7 +203,9 @@ func (s *Sorter) SortFile(f io.ReadCloser, pk []string) (err error) {
 		} else if err != nil {
 			return
 		}
-		s.AddRow(row)
+		if err = s.AddRow(row); err != nil {
+			return
+		}
 	}
 	if s.pt != nil {
 		s.pt.Done()
